@@ -1,4 +1,4 @@
-\* C04 thorough (model checking only, 2): 2 threads, <= 3 spans (verdict free), <= 4 frames, no tasks, nesting <= 3, sync forms, incoming ids (pair, trace id alone, span id alone), hand-off.
+\* C04 thorough (model checking only, 2): 2 threads, <= 3 spans (verdict free), <= 4 frames, no tasks, nesting <= 3, sync forms, incoming ids (pair, trace id alone, span id alone), hand-off. Span nodes with explicit trace_id / span_parent / span_id included.
 SPECIFICATION SSpec
 CONSTANTS
     NThreads = 2
@@ -6,6 +6,7 @@ CONSTANTS
     InstKind <- MC_Kind1
     NKeys = 3
     PropChoices <- MC_None
+    DupChoices <- MC_NoDups
     Kinds <- MC_None
     Forms <- MC_None
     MaxFrames = 4
@@ -17,8 +18,8 @@ CONSTANTS
     IncomingKinds <- MC_IncAll
     WithLazy = FALSE
     HasRng = TRUE
-    ExplicitKinds <- MC_ExNone
-    PushLastWins = TRUE
+    ExplicitKinds <- MC_ExBoth
+    PushLastWins = FALSE
     WithCancel = FALSE
     CancelOwnIds = FALSE
     CtxForms <- MC_Forms
